@@ -40,6 +40,7 @@ type Options struct {
 	MaxInline  int
 	NoContract map[string]bool // callees to inline even though they have a contract
 	NoPanic    bool            // generate no-panic obligations
+	Overflow   bool            // math-int mode: obligations that int arithmetic stays within 64 bits
 	Bounded    string
 	Reveal     bool // opaque spec functions are expanded (used when proving the contracts that define them)
 	InlineAll  bool // falsifier mode: ignore contracts of callees with bodies, inline them instead
@@ -199,6 +200,9 @@ func (x *Exec) constValue(c *ssa.Const) Value {
 			return Value{T: t, L: []*Term{x.C.Bool(constant.BoolVal(c.Value))}}
 		case info&types.IsInteger != 0:
 			v, _ := new(big.Int).SetString(constant.ToInt(c.Value).ExactString(), 10)
+			if isMathInt(t) {
+				return Value{T: t, L: []*Term{x.C.bigInt(v)}}
+			}
 			return Value{T: t, L: []*Term{x.C.BVLit(v, intWidth(u))}}
 		case info&types.IsFloat != 0:
 			return Value{T: t, L: []*Term{x.floatLit(c.Value.ExactString())}}
@@ -813,6 +817,8 @@ func (x *Exec) execInstr(fr *frame, st *State, ins ssa.Instruction) {
 		case token.SUB:
 			if isFloat(ins.Type()) {
 				st.Env[ins] = Value{T: ins.Type(), L: []*Term{c.App(c.DeclareFun("f64.neg", []*Sort{F64Sort}, F64Sort), xv.L[0])}}
+			} else if xv.L[0].Sort.Kind == SInt {
+				st.Env[ins] = Value{T: ins.Type(), L: []*Term{c.IntBin("-", c.IntLit(0), xv.L[0])}}
 			} else {
 				st.Env[ins] = Value{T: ins.Type(), L: []*Term{c.BVNeg(xv.L[0])}}
 			}
@@ -945,6 +951,15 @@ func (x *Exec) allocArray(st *State, elem types.Type) *Term {
 
 func (x *Exec) toIdx(v Value) *Term {
 	t := v.L[0]
+	if IdxSort.Kind == SInt {
+		if t.Sort.Kind == SInt {
+			return t
+		}
+		if t.Sort.Kind == SBV {
+			return x.C.BVToInt(t, isSigned(v.T) || v.T == untypedInt)
+		}
+		panic("index is not an integer")
+	}
 	if t.Sort.Kind != SBV {
 		panic("index is not an integer")
 	}
@@ -1139,12 +1154,26 @@ func (x *Exec) binop(st *State, op token.Token, a, b Value, resT types.Type, pos
 	if !isInteger(at) {
 		panic(unsupported(fmt.Sprintf("operator %s on %s", op, at)))
 	}
+	if isMathInt(at) || a.L[0].Sort.Kind == SInt {
+		return x.mathBinop(st, op, a, b, resT, pos)
+	}
 	sg := isSigned(at)
 	l, r := a.L[0], b.L[0]
 	switch op {
 	case token.SHL, token.SHR:
 		w := l.Sort.W
 		cnt := r
+		if cnt.Sort.Kind == SInt {
+			x.boundsObl(st, "shift", c.IntCmp(">=", cnt, c.IntLit(0)), pos, "shift count is not negative")
+			cnt = c.Ite(c.IntCmp(">=", cnt, c.IntLit(int64(w))), c.BVI(int64(w), w), c.IntToBV(cnt, w))
+			if op == token.SHL {
+				return mk(c.BVBin("bvshl", l, cnt))
+			}
+			if sg {
+				return mk(c.BVBin("bvashr", l, cnt))
+			}
+			return mk(c.BVBin("bvlshr", l, cnt))
+		}
 		if isSigned(b.T) {
 			x.boundsObl(st, "shift", c.BVCmp("bvsge", cnt, c.BVI(0, cnt.Sort.W)), pos, "shift count is not negative")
 		}
@@ -1258,6 +1287,11 @@ func (x *Exec) strLess(a, b *Term) *Term {
 func (x *Exec) convert(st *State, v Value, to types.Type, pos token.Pos) Value {
 	c := x.C
 	from := v.T
+	if mathInts {
+		if r, ok := x.mathConvert(v, to); ok {
+			return r
+		}
+	}
 	switch {
 	case isInteger(from) && isInteger(to):
 		w := intWidth(to.Underlying().(*types.Basic))
